@@ -111,7 +111,10 @@ def mutants(ids):
     with concurrent.futures.ThreadPoolExecutor(max_workers=jobs) as ex:
         for results in ex.map(one, todo):
             for name, p, c, info in results:
-                if expects.get(name) == "SILENT":
+                if expects.get(name) == "OUT_OF_REACH":
+                    good = c in (0, 1)
+                    print(f"selftest mutant {name} -> {p}: exit {c} {info} -> documented as out of reach ({'not detected' if c == 0 else 'detected after all'})", flush=True)
+                elif expects.get(name) == "SILENT":
                     good = c == 0
                     print(f"selftest benign change {name} -> {p}: exit {c} {info} -> {'silent, as it must be' if good else 'FALSE ALARM'}", flush=True)
                 else:
